@@ -54,6 +54,51 @@ PYEOF
   if [ "$(grep -c 'j := uint32(norder)' "$S")" != 1 ]; then echo "setup: select patch did not apply" >&2; exit 2; fi
   echo "$SRCROOT" > .build/goroot/.verif-src
 fi
+# 2b. patched copy of the pinned bbolt module (crash-point recorder hooks; used through -modfile, /repo/go.mod untouched)
+BVER=$(grep -E '^\s*go.etcd.io/bbolt ' /repo/go.mod | awk '{print $2}')
+BSRC=$(cd /repo && go env GOMODCACHE)/go.etcd.io/bbolt@$BVER
+if [ ! -f .build/bbolt/.verif-ver ] || [ "$(cat .build/bbolt/.verif-ver)" != "$BVER" ]; then
+  rm -rf .build/bbolt
+  cp -r "$BSRC" .build/bbolt
+  chmod -R u+w .build/bbolt
+  python3 - <<'PYEOF'
+import re
+def edit(p, old, new):
+    s = open(p).read()
+    assert s.count(old) == 1, (p, old, s.count(old))
+    open(p, 'w').write(s.replace(old, new))
+b = '/verif/.build/bbolt/'
+edit(b + 'db.go', 'db.ops.writeAt = db.file.WriteAt', 'db.ops.writeAt = verifWrapWriteAt(db, db.file.WriteAt)')
+edit(b + 'bolt_linux.go', 'return syscall.Fdatasync(int(db.file.Fd()))', 'err := syscall.Fdatasync(int(db.file.Fd()))\n\tverifEvent(db, "sync", 0, nil)\n\treturn err')
+edit(b + 'db.go', 'if err := db.file.Truncate(int64(sz)); err != nil {', 'verifEvent(db, "truncate", int64(sz), nil)\n\t\t\tif err := db.file.Truncate(int64(sz)); err != nil {')
+open(b + 'zz_verif_hook.go', 'w').write("""package bbolt
+
+// Verif crash-point recorder (added by /verif/tools/setup.sh to a private copy of the module).
+
+// VerifHook, if set, observes every page write, fdatasync and file growth of every DB: kind is "write", "sync" or "truncate".
+var VerifHook func(path string, kind string, off int64, b []byte)
+
+func verifEvent(db *DB, kind string, off int64, b []byte) {
+	if VerifHook != nil {
+		VerifHook(db.path, kind, off, b)
+	}
+}
+
+func verifWrapWriteAt(db *DB, f func([]byte, int64) (int, error)) func([]byte, int64) (int, error) {
+	return func(b []byte, off int64) (int, error) {
+		n, err := f(b, off)
+		if err == nil {
+			verifEvent(db, "write", off, b)
+		}
+		return n, err
+	}
+}
+""")
+PYEOF
+  echo "$BVER" > .build/bbolt/.verif-ver
+fi
+# modfile = the repo's current go.mod + replace (regenerated every time by vcheck as well)
+cp /repo/go.mod .build/go.mod && cp /repo/go.sum .build/go.sum && echo 'replace go.etcd.io/bbolt => /verif/.build/bbolt' >> .build/go.mod
 . tools/env.sh
 go version
 # 3. tools
